@@ -251,6 +251,7 @@ class Image(Traversable):
     ) -> List[Sample]:
         sample_dict = {s.export_name: s for s in samples}
         marked = {n: False for n in sample_dict}
+        used_names = set(sample_dict.keys())
         result = []
         for sample in samples:
 
@@ -275,7 +276,14 @@ class Image(Traversable):
                     else:
                         pairs = [alternate_sample, sample]
 
-                    new_name = match.group(1)
+                    # the common stem may already be a sibling's name
+                    stem = match.group(1)
+                    new_name = stem
+                    count = 1
+                    while new_name in used_names:
+                        count += 1
+                        new_name = f"{stem} ({count})"
+                    used_names.add(new_name)
                     result_sample = combine_stereo(pairs[0], pairs[1], new_name)
                     marked[alternate_name] = True
                 
